@@ -280,6 +280,24 @@ class FakeRequests:
     return Resp()
 
 
+def _fake_requests_getattr(self, name):
+  """Any other way of talking to the server (HEAD, a Session, ...) is network traffic as well."""
+  import requests as real_requests
+  if name in ('head', 'post', 'put', 'request', 'options', 'patch', 'delete'):
+    def touch(*a, **k):
+      self.inj.effect('net', 'requests.' + name)
+      self.gets += 1
+      raise real_requests.ConnectionError('offline (fake transport): requests.%s' % name)
+    return touch
+  if name in ('Session', 'session'):
+    self.gets += 1
+    raise real_requests.ConnectionError('offline (fake transport): requests.Session')
+  return getattr(real_requests, name)
+
+
+FakeRequests.__getattr__ = _fake_requests_getattr
+
+
 class LzmaSeam:
   """lzma.open whose reads are effects (errors / crashes can hit the copy loop on the read side)."""
 
@@ -459,6 +477,10 @@ def decompress_truncated(case):
   comp = real_lzma.compress(data, format=fmt)
   cuts = sorted({0, 1, 5, 12, 13, len(comp) // 3, len(comp) // 2, len(comp) - 13, len(comp) - 5, len(comp) - 2, len(comp) - 1}
                 & set(range(len(comp))))
+  if case.get('damage') == 'flip':
+    # the compressed file has its full length but one damaged byte (header / body / integrity check at the end)
+    cuts = sorted({1, 6, len(comp) // 4, len(comp) // 2, 3 * len(comp) // 4, len(comp) - 6, len(comp) - 2} & set(range(len(comp))))
+  damaged = (lambda cut: comp[:cut]) if case.get('damage') != 'flip' else (lambda cut: comp[:cut] + bytes([comp[cut] ^ 0x5A]) + comp[cut + 1:])
   base = tempfile.mkdtemp(prefix='c19t_')
   work = os.path.join(base, 'cache')
   evals = 0
@@ -471,7 +493,7 @@ def decompress_truncated(case):
       final = os.path.join(work, 'db.sqlite')
       for attempt in range(2):
         with open(src, 'wb') as f:
-          f.write(comp[:cut])
+          f.write(damaged(cut))
         try:
           with seams.patched(downloads, log=lambda *a, **k: None):
             downloads.maybe_lzma_decompress(src)
@@ -481,8 +503,8 @@ def decompress_truncated(case):
         if os.path.exists(final):
           with open(final, 'rb') as f:
             got = f.read()
-          require(got == data, 'a compressed input that ends after %d of %d bytes left a %d-byte file under the final name '
-                  '(complete content: %d bytes)' % (cut, len(comp), len(got), len(data)), len(data), len(got), case=nc)
+          require(got == data, 'a compressed input damaged at byte %d of %d left a %d-byte file with wrong content under the final '
+                  'name (complete content: %d bytes)' % (cut, len(comp), len(got), len(data)), len(data), len(got), case=nc)
         else:
           require(failed, 'decompressing a truncated input neither failed nor produced the file', case=nc)
       with open(src, 'wb') as f:
@@ -685,5 +707,6 @@ def plan(ctx):
   ctx.pmap('decompress', [{'size': n, 'what': 'decompress'} for n in dc] +
            [{'size': n, 'what': 'decompress', 'kind': k} for n, k in kinds], chunk=1)
   ctx.pmap('decompress_truncated', [{'size': n, 'format': f, 'kind': k} for n in ((0, 1, 1000, 200000, 5 * COPY) if th else (0, 1000, 200000))
-                                    for f in ('xz', 'alone') for k in (('noise', 'zero_tail') if n > 1000 else ('noise',))], chunk=2)
+                                    for f in ('xz', 'alone') for k in (('noise', 'zero_tail') if n > 1000 else ('noise',))] +
+           [{'size': n, 'format': f, 'damage': 'flip'} for n in (1000, 200000) for f in ('xz', 'alone')], chunk=2)
   ctx.pmap('cifar_convert', [{'split': s} for s in ('train', 'test')], chunk=1)
